@@ -122,4 +122,71 @@ PROPS["C04"] = dict(
           "exhaustive bounded cross product.",
     note="frames of one stack are pairwise distinct; list.index on frames is identity; f_back of a frame is None or a frame; the "
          "other-thread search loop (sys._current_frames) is not under contract")
+PY310 = "/root/.pyenv/versions/3.10.13/bin/python"
+PY39 = "/root/.pyenv/versions/3.9.18/bin/python"
+
+
+def g1(mode, py, tag, depth=2, thorough_only=False, stride=None, vendor=False):
+    env = "PYTHONPATH={repo}" + (":{verif}/.vendor" if vendor else "")
+    if stride:
+        env = f"G1_STRIDE={stride} " + env
+    return dict(name=f"g1_{mode}_{tag}" + (f"_d{depth}" if depth != 2 else ""), cmd=f"{env} {py} legs/g1.py {mode} {depth}",
+                thorough_only=thorough_only, timeout=3400)
+
+
+def corpus(mode, py, tag, thorough_only=False):
+    return dict(name=f"corpus_{mode}_{tag}", cmd="PYTHONPATH={repo} " + py + f" legs/corpus.py {mode}", thorough_only=thorough_only)
+
+
+BOUNDED_TECH = ("bounded contract check (stand-in): sidecar postcondition evaluated natively on an exhaustively enumerated program family with a "
+                "stated bound; the CPython compiler is not formalised, so no deductive obligation can decide this property")
+BOUNDED_NOTE = ("NOT a proof: bound = G1 programs of nesting depth <= 2 (quick, exhaustive: 16 374 programs x all branch vectors x all "
+                "suspension / probe points) on CPython 3.12.1 and 3.11.7; thorough adds 3.10.13, 3.9.18 and a strided sample of depth 3; the "
+                "ground truth is a shadow log kept by the generated managers; `match` statements and >2 items per with are not generated")
+PROPS["C01"] = dict(
+    level="exploration", contracts=["contracts.lowlevel"], unit_filter=lambda u: u.name.startswith("C01."),
+    legs=[g1("suspended", PY312, "py312"), g1("suspended", PY311, "py311"), corpus("exits", PY312, "py312"),
+          corpus("exits", PY311, "py311", True), g1("suspended", PY310, "py310", thorough_only=True, vendor=True),
+          g1("suspended", PY39, "py39", thorough_only=True, vendor=True), g1("suspended", PY312, "py312", 3, True, stride=40)],
+    technique=BOUNDED_TECH + "; pure sub-lemmas (varint / exception-table decoding, handler-chain walk) discharged deductively",
+    claim="Bounded stand-in: at every suspension point of every program of the family, Frame.contexts equals the shadow log (identity of obj, "
+          "is_async, is_exiting on exactly the exiting one) with no InspectionWarning; plus every exit site of the running interpreter's "
+          "standard library resolves to the with block on its own source line. Sub-lemmas proved deductively are reported alongside and do "
+          "not make this a proof.",
+    note=BOUNDED_NOTE)
+PROPS["C02"] = dict(
+    level="exploration", contracts=[], legs=[g1("running", PY312, "py312"), g1("running", PY311, "py311"),
+                                             g1("running", PY310, "py310", thorough_only=True, vendor=True),
+                                             g1("running", PY39, "py39", thorough_only=True, vendor=True),
+                                             g1("running", PY312, "py312", 3, True, stride=40)],
+    technique=BOUNDED_TECH,
+    claim="Bounded stand-in: the same family probed from inside every __enter__/__exit__/__aenter__/__aexit__ invocation and every body call "
+          "of running coroutines, generators and async generators (extract_since on the running frame): a manager being entered is not yet "
+          "listed, one being exited is listed last with is_exiting and obj set, for every way of leaving the block.",
+    note=BOUNDED_NOTE)
+PROPS["C08"] = dict(
+    level="exploration", contracts=[], legs=[g1("meta", PY312, "py312"), g1("meta", PY311, "py311"), corpus("meta", PY312, "py312"),
+                                             corpus("meta", PY311, "py311", True), g1("meta", PY310, "py310", thorough_only=True, vendor=True),
+                                             g1("meta", PY39, "py39", thorough_only=True, vendor=True)],
+    technique=BOUNDED_TECH,
+    claim="Bounded stand-in: start_line equals the line of the with keyword and varname equals the `as` target (None without one) for every "
+          "context of the family; for every with statement of the standard library start_line is a with line and varname is None or parses "
+          "to the item's target, supported targets not dropped.",
+    note=BOUNDED_NOTE + "; the generated family uses simple name targets, the richer target forms come from the standard-library corpus")
+PROPS["C20"] = dict(
+    level="exploration", contracts=["contracts.lowlevel"], unit_filter=lambda u: u.name.startswith("C20."),
+    legs=[g1("referents", PY312, "py312"), g1("referents", PY311, "py311"), g1("referents", PY310, "py310", thorough_only=True, vendor=True),
+          g1("referents", PY39, "py39", thorough_only=True, vendor=True)],
+    technique=BOUNDED_TECH + "; containment and mode-switch obligations discharged deductively",
+    claim="Bounded stand-in for the over-approximation clause (fallback mode: every truly active manager present in order with right obj / "
+          "is_async, an is_exiting entry iff an exit is in progress, extras only the manager being entered or exited); containment of "
+          "trickery failures and the set_trickery_enabled mode switch are proved deductively.",
+    note=BOUNDED_NOTE + "; what gc.get_referents reports is interpreter behaviour")
+PROPS["C06"] = dict(
+    level="exploration", contracts=[], legs=[g1("twin", PY312, "py312"), g1("twin", PY311, "py311", thorough_only=True)],
+    technique=BOUNDED_TECH + " (twin runs)",
+    claim="Bounded stand-in: every program of the family run twice, un-observed and with two extractions at every suspension point: identical "
+          "traces, the two extractions compare equal, managers are collectable once results are dropped. Reference-count balance of the "
+          "ctypes reads and crash-freedom are NOT decided (sampled only).",
+    note=BOUNDED_NOTE + "; ctypes reference handling and interpreter crash-freedom remain assumptions")
 NOT_APPLICABLE = {}
